@@ -176,14 +176,15 @@ func VerifH_C18_PipelineEoLClose() {
 		}
 		return c, nil
 	}})
-	c0, _, err := t.getConn(context.Background())
+	pc, _, err := t.pool.Get(context.Background()) // (the pool's own API: no dependence on the transport's private helpers)
 	verifrt.Assert(err == nil && len(conns) == 1, "first connection dialled")
+	c0 := pc.(*pipelineConn)
 	// the connection has already carried 65535 (thorough: any number up to that) exchanges
 	c0.m.Lock()
 	c0.nextQid = 65535
 	c0.reserved = 0
 	c0.m.Unlock()
-	t.releaseConn(c0)
+	t.pool.Release(c0)
 	resA := make(chan vExRes, 1)
 	go func() { r, err := t.ExchangeContext(context.Background(), vQuery12(0x1111, 1)); resA <- vExRes{r, err} }()
 	<-conns[0].outbox // A's query is on the wire with the last ID; the server stays silent
